@@ -249,7 +249,7 @@ def gen_cases(rng, tier):
     if route in ("main", "api") and i % 5 == 4:
       # feature interaction: operations that address [Variables] itself, and an item written as ${VAR} that is
       # overridden with exactly the text it currently expands to ("frozen") while VAR is changed or removed
-      case["freeze"] = {"tseed": rng.randrange(1 << 30)}
+      case["freeze"] = {"tseed": rng.randrange(1 << 30), "force_last_key": (i // 5) % 2 == 0}
       case["listing"] = False
       case.pop("combined", None)
     cases.append(case)
@@ -463,7 +463,14 @@ def run_freeze(case, ctx, items):
   # every key of a small section removed in a file that HAS a [Variables] section (the then-empty section must be
   # treated as in a file without one)
   small = [(s_, its) for s_, its in templ if 1 <= len(its) <= 2 and not s_.startswith("Table-Form") and s_ != "Tabulation"]
-  if small and rng.random() < 0.45:
+  if case["freeze"].get("force_last_key"):
+    # deterministically: empty one of the sections whose absence is an error (so that the two readings are
+    # distinguishable), whatever its size
+    defn = [(s_, its) for s_, its in templ if s_ in ("Pair", "EAM-Embed", "EAM-Density", "EAM-ADP-Dipole", "EAM-ADP-Quadrupole") and its]
+    if defn:
+      small = [min(defn, key=lambda x: len(x[1]))]
+      ops = [o for o in ops if o["section"] != small[0][0]]
+  if small and (case["freeze"].get("force_last_key") or rng.random() < 0.45):
     s_, its = rng.choice(small)
     if not any(o["section"] == s_ for o in ops):
       for k_, v_ in its:
